@@ -550,15 +550,15 @@ func (g *G) variable(t *m.Type, locDefault bool) *m.Value {
 	if g.strictVars {
 		// no reuse: an existing variable of the same type may be nullable-with-default
 	} else if g.inFrag || g.curLocal == nil {
-		for n, pv := range g.pool {
-			if pv.typ.String() == t.String() && r.Chance(1, 2) {
+		for _, n := range sortedVarNames(g.pool) {
+			if pv := g.pool[n]; pv.typ.String() == t.String() && r.Chance(1, 2) {
 				g.curNeeds[n] = true
 				return &m.Value{Kind: m.VVar, Raw: n}
 			}
 		}
 	} else {
-		for n, pv := range g.curLocal {
-			if pv.typ.String() == t.String() && r.Chance(1, 2) {
+		for _, n := range sortedVarNames(g.curLocal) {
+			if pv := g.curLocal[n]; pv.typ.String() == t.String() && r.Chance(1, 2) {
 				return &m.Value{Kind: m.VVar, Raw: n}
 			}
 		}
@@ -809,4 +809,14 @@ func PetsScenarioDoc(r *core.Rand, mg *tsys.Merged) *m.Doc {
 	defs := []*m.Def{op, fa, fb}
 	p := r.Perm(3)
 	return &m.Doc{Defs: []*m.Def{defs[p[0]], defs[p[1]], defs[p[2]]}}
+}
+
+// sortedVarNames: map iteration order must never influence what is generated.
+func sortedVarNames(mp map[string]*poolVar) []string {
+	names := make([]string, 0, len(mp))
+	for n := range mp {
+		names = append(names, n)
+	}
+	sort.Strings(names)
+	return names
 }
